@@ -75,3 +75,22 @@ class TermMatch:
                     and text(a.value) == f'{self.m}.groupdict()':
                 out.append(a.targets[0].id)
         return out
+
+
+def returned_sides(f: Fn):
+    """Names of the left-hand and right-hand term lists of `parse_equation_terms`: the two parts of the returned
+    concatenation (`a + b`, `[*a, *b]`, `list(chain(a, b))`)."""
+    rets = f.returns()
+    if len(rets) != 1 or rets[0].ast.value is None:
+        raise Unsupported(f'{f.q}: expected one return of the term list')
+    rv = rets[0].ast.value
+    parts = []
+    if isinstance(rv, ast.BinOp) and isinstance(rv.op, ast.Add):
+        parts = [rv.left, rv.right]
+    elif isinstance(rv, ast.List) and len(rv.elts) == 2 and all(isinstance(e, ast.Starred) for e in rv.elts):
+        parts = [e.value for e in rv.elts]
+    elif is_call(rv, 'list') and len(rv.args) == 1 and is_call(rv.args[0], 'itertools.chain', 'chain') and len(rv.args[0].args) == 2:
+        parts = list(rv.args[0].args)
+    if len(parts) != 2:
+        raise Unsupported(f'{f.q}: return `{text(rv)[:60]}` is not the concatenation of two term lists')
+    return rets[0], parts
